@@ -2,6 +2,7 @@ package main
 
 import (
 	"fmt"
+	"strconv"
 	"go/constant"
 	"go/token"
 	"go/types"
@@ -155,6 +156,7 @@ type Exec struct {
 	frozen   map[*MapObj]bool
 	builders int
 	known    map[string]bool
+	ropeLens map[string]Str
 	curDeferFrame []*frame
 	locks       map[*Val]bool
 	frozenCells map[*Val]bool
@@ -187,6 +189,7 @@ func (ex *Exec) resetPath(prefix []uint16) {
 	ex.dom = map[int]*byteset{}
 	ex.taint = map[int]bool{}
 	ex.known = map[string]bool{}
+	ex.ropeLens = nil
 	ex.stack = ex.stack[:0]
 	ex.notes = nil
 	ex.covers = nil
@@ -1111,6 +1114,9 @@ func (ex *Exec) intBinop(op token.Token, a, b Int) Val {
 		}
 		unsupported("symbolic shift amount")
 	}
+	if a.W >= wDec || b.W >= wDec {
+		unsupported("arithmetic on a formatted string segment")
+	}
 	if a.W != b.W {
 		panic(engineError(fmt.Sprintf("int binop %s width mismatch %d/%d", op, a.W, b.W)))
 	}
@@ -1263,6 +1269,32 @@ func (ex *Exec) ropeEq(a, b Str) Bool {
 		return out
 	}
 	ra, rb := split(a), split(b)
+	// one side plain bytes (all concrete), the other bytes + one decimal segment + bytes
+	if len(ra) == 1 && len(rb) == 2 {
+		ra, rb = rb, ra
+		a, b = b, a
+	}
+	if len(ra) == 2 && len(rb) == 1 && ra[0].seg.W == wDec {
+		if cs, ok := b.conc(); ok {
+			pre, okp := Str{B: ra[0].bytes}.conc()
+			suf, oks := Str{B: ra[1].bytes}.conc()
+			if okp && oks {
+				if len(cs) < len(pre)+len(suf) || cs[:len(pre)] != pre || cs[len(cs)-len(suf):] != suf {
+					return Bool{C: false}
+				}
+				mid := cs[len(pre) : len(cs)-len(suf)]
+				n, err := strconv.ParseInt(mid, 10, 64)
+				if err != nil || strconv.FormatInt(n, 10) != mid {
+					return Bool{C: false}
+				}
+				seg := ra[0].seg
+				if seg.T == nil {
+					return Bool{C: int64(seg.C) == n}
+				}
+				return mkBool(mkEq(seg.T, mkConst(uint64(n), 64)))
+			}
+		}
+	}
 	nseg := len(ra) - 1
 	if len(ra) != len(rb) {
 		unsupported("comparison of formatted strings with different skeletons")
